@@ -179,7 +179,8 @@ class GraphQLLocatedError(GraphQLResponseError):
             ),
             ("path", self.path if self.path is not None else None),
         )
-        return {k: v for k, v in kv if v}
+        # Empty locations and path are left out, the message is always present.
+        return {k: v for k, v in kv if v or k == "message"}
 
 
 class InvalidValue(GraphQLLocatedError, ValueError):
